@@ -25,8 +25,8 @@ MANIFEST = {
     "technique": "Lean 4 proof (corollaries of the refinement interface) + differential correspondence with the real code",
 }
 
-REQUIRED = ["KV.C03.prob_independent_of_table", "KV.C03.forgot_prob_independent_of_table",
-            "KV.C03.trie_mark_loss_harmless", "KV.C03.quant_bin_singleton", "KV.C03.quant_lossless_by_count_partial",
+REQUIRED = ["KV.C03.search_refinement", "KV.C03.probing_refines", "KV.C03.probing_prob", "KV.C03.prob_independent_of_table", "KV.C03.forgot_prob_independent_of_table",
+            "KV.C03.trie_mark_loss_harmless", "KV.C03.quant_bin_singleton", "KV.C03.quant_exact", "KV.C03.quant_equal_multiplicity_lossless",
             "KV.C03.quant_distinct_fails", "KV.C03.quant_backoff_one_bit_overflows", "KV.C03.quant_centre_underflow_witness"]
 
 KEY_QUANT = "quant-distinct-values-but-count-exceeds-bins"
@@ -163,10 +163,13 @@ def sweep_case(ctx, case, hexe, dexe, bb, work, ci, quick):
                        {"pair": [x, y], "query": vm[0], "pos": vm[1], "a": vm[2], "b": vm[3], "tol": vm[4]})
     ctx.hist("c03.prob_bits_differ_unquantised", min(cnt.get("prob_bits_differ", 0), 1))
     # ---- 2. configuration sweep: results must not depend on the parameters
-    nsweep = 2 if quick else 5
-    for _ in range(nsweep):
+    fan = case.meta.get("kind") == "fanout"
+    nsweep = (4 if fan else 2) if quick else (10 if fan else 5)
+    fan_abits = [1, 2, 3, 4, 6, 9, 22, 25, 64, 255]
+    ctx.rng.shuffle(fan_abits)
+    for si in range(nsweep):
         mult = ctx.rng.choice([1.0001, 1.2, 1.5, 2.0, 10.0, 1.0 + ctx.rng.random() * 3])
-        abits = ctx.rng.randrange(0, 26)
+        abits = fan_abits[si % len(fan_abits)] if fan else ctx.rng.randrange(0, 26)
         pbits = ctx.rng.randrange(1, 26) if ctx.rng.random() < 0.6 else ctx.rng.randrange(1, 6)
         bbits = ctx.rng.randrange(2, 26) if ctx.rng.random() < 0.6 else ctx.rng.randrange(1, 6)
         mem = ctx.rng.choice([0, 1, 1 << 16, 1 << 20, 1 << 26])
@@ -310,6 +313,38 @@ def quant_witness(ctx, hexe, work):
     return True
 
 
+def equalmult_stream(ctx, hexe, work, quick):
+    """k = 2^q distinct values, each with the same multiplicity (>= 2000 copies) in every quantised order, bins = k:
+    the quantised tries must reproduce the unquantised trie BIT-EXACTLY (theorem quant_equal_multiplicity_lossless)."""
+    found = False
+    configs = [(3, 2000)] if quick else [(3, 2000), (2, 6000), (4, 2500), (3, 30000)]
+    for q, m in configs:
+        case = lmgen.gen_equalmult_case(ctx.rng, q=q, m=m)
+        path = lmq.write_case(case, work, "eq%d_%d" % (q, m))
+        ops = lmq.make_ops(path, case, classes="TQB", extra=" pbits=%d bbits=%d" % (q, q))
+        rc, o, e = stream.run_lines(hexe, ops, 600)
+        ctx.hist("c03.equalmult", "q=%d,copies=%d" % (q, m))
+        ctx.count(("equalmult", case.arpa[:2000], q, m), nontrivial=True, n=sum(len(ws) for _, ws in case.queries))
+        if rc != 0 or lmq.parse_load(o[0]) != {"T": "ok", "Q": "ok", "B": "ok"}:
+            ctx.violation("equal-multiplicity model does not load in the trie classes", {"stream": "equalmult", "meta": case.meta,
+                          "load": o[:1], "stderr": e[-800:]})
+            found = True
+            continue
+        res = parse_all(case, o)
+        for cls in "QB":
+            mm = first_mismatch(res["T"], res[cls], rec_all)
+            if mm:
+                q_, pos = mm[0], mm[1]
+                ctx.violation("%s is not lossless although every order has exactly 2^%d distinct values of equal multiplicity "
+                              "(bit-exact comparison with TrieModel)" % (lmq.NAMES[cls], q),
+                              {"stream": "equalmult", "meta": case.meta, "generator": "lmgen.gen_equalmult_case(q=%d, m=%d)" % (q, m),
+                               "query": case.queries[q_], "pos": pos, "trie": str(mm[2])[:600], "quant": str(mm[3])[:600],
+                               "options": "pbits=%d bbits=%d abits=%d" % (q, q, case.abits)})
+                found = True
+                break
+    return found
+
+
 def run(ctx):
     problems, hexe, dexe = c01.setup(ctx, "C03", REQUIRED)
     if hexe is None:
@@ -324,10 +359,19 @@ def run(ctx):
     quick = ctx.tier == "quick"
     work = fresh_scratch("c03_%d" % os.getpid())
     found = quant_witness(ctx, hexe, work)
+    found = equalmult_stream(ctx, hexe, work, quick) or found
     n = 25 if quick else 500
+    forces = [{"kind": "fanout"}, {"kind": "fanout"}, {"kind": "pruned", "chains": True, "order": 6},
+              {"kind": "corpus", "chains": True, "order": 5}] + ([] if quick else [{"kind": "fanout"}] * 8)
     for ci in range(n):
         size = "small" if quick or ctx.rng.random() < 0.8 else "medium"
-        case = lmgen.gen_case(ctx.rng, size=size, max_vocab=30 if quick else 60)
+        force = forces[ci] if ci < len(forces) else ({"kind": "fanout"} if ctx.rng.random() < 0.03 else None)
+        case = lmgen.gen_case(ctx.rng, size=size, max_vocab=30 if quick else 60, force=force)
+        if case.meta["kind"] == "fanout":
+            ctx.hist("c03.fanout.buckets_spanned_min", case.meta["buckets_spanned_min"])
+            ctx.cov["fanout_max_buckets_spanned"] = max(ctx.cov.get("fanout_max_buckets_spanned", 0), case.meta["buckets_spanned_min"])
+        for (b, L) in getattr(case, "chains", []):
+            ctx.hist("c03.blankchain", "basis=%d,len=%d" % (b, L))
         ctx.hist("lm.order", case.meta["order"])
         ctx.hist("lm.kind", case.meta["kind"])
         try:
